@@ -195,3 +195,84 @@ RECIPES = [
     ("C11", "break", ["C11-R7"], OP4, "                    perline = int(numformat[:p])\n", "", "the announced values-per-line is ignored (always 5)"),
     ("C11", "break", ["C11-R7"], OP4, "                    numlen = int(numformat[p + 1 :].split(\".\")[0])\n", "                    numlen = 16\n", "the announced field width is ignored (always 16)"),
 ]
+
+# ---------------------------------------------------------------------------------------------------------------- third pass
+_BLOCK = "        blocklist = [ln[:linelen] for ln in it.islice(fh, nlines)]\n        s = \"\".join(blocklist)\n"
+_BLOCK_COMP = "        lines = [fh.readline() for _ in range(@N@)]\n        s = \"\".join(ln[:linelen] for ln in lines)\n"
+_SKIPREC_GEN = ("        def records():\n            key = self._getkey()\n            while key > 0:\n                reclen = self._Str4.unpack(self._fileh.read(4))[0]\n"
+                "                yield reclen\n                key = self._getkey()\n\n        for reclen in records():\n            self._fileh.seek(@SEEK@, 1)\n        self._skipkey(2)\n")
+_SKIPREC_FLAG = ("        done = self._getkey() <= 0\n        while not done:\n            reclen = self._Str4.unpack(self._fileh.read(4))[0]\n"
+                 "            self._fileh.seek(@SEEK@, 1)\n            done = self._getkey() <= 0\n        self._skipkey(2)\n")
+_SKIPBIN_HEAD = "        icol = 1\n        bi = self._bytes_i\n        delta = 4 - bi\n        while icol <= cols:\n"
+_SKIPBIN_TAIL = "            self._fileh.seek(reclen + delta, 1)\n\n    def _get_cutoff_etc(self):"
+_SKIPBIN_ALL = ("        icol = 1\n        bi = self._bytes_i\n        delta = 4 - bi\n        while icol <= cols:\n            # Read record length at start of record:\n"
+                "            reclen = self._Str_i4.unpack(self._fileh.read(4))[0]\n            # Read column header\n"
+                "            icol = self._Str_i.unpack(self._fileh.read(bi))[0]\n            self._fileh.seek(reclen + delta, 1)\n")
+_SKIPBIN_FLAG = ("        icol = 1\n        bi = self._bytes_i\n        delta = 4 - bi\n        more = icol <= cols\n        while more:\n"
+                 "            reclen = self._Str_i4.unpack(self._fileh.read(4))[0]\n            icol = self._Str_i.unpack(self._fileh.read(bi))[0]\n"
+                 "            self._fileh.seek(reclen + delta, 1)\n            more = icol @OP@ cols\n")
+_MAT_FORMATS = ("        if mtype & 1:  # single precision\n            frm = self._rfrm\n            frmu = self._rfrmu\n            bytes_per = self._fbytes\n"
+                "        else:\n            frm = self._endian + \"f8\"\n            frmu = self._endian + \"%dd\"\n            bytes_per = 8\n")
+_MAT_RECORD = ("        if mtype & 1:  # single precision\n            real = SimpleNamespace(dtype=self._rfrm, struct=self._rfrmu, nbytes=@NB@)\n"
+               "        else:\n            real = SimpleNamespace(dtype=self._endian + \"f8\", struct=self._endian + \"%dd\", nbytes=8)\n"
+               "        frm, frmu, bytes_per = real.dtype, real.struct, real.nbytes\n")
+_REC_CHAIN = ("        if not form or form == \"int\":\n            frm = self._intstr\n            frmu = self._intstru\n            bytes_per = self._ibytes\n"
+              "        elif form == \"uint\":\n            frm = self._intstr.replace(\"i\", \"u\")\n            frmu = self._intstru.replace(\"i\", \"I\").replace(\"q\", \"Q\")\n"
+              "            bytes_per = self._ibytes\n        elif form == \"double\":\n            frm = self._endian + \"f8\"\n            frmu = self._endian + \"%dd\"\n"
+              "            bytes_per = 8\n        elif form == \"single\":\n            frm = self._endian + \"f4\"\n            frmu = self._endian + \"%df\"\n"
+              "            bytes_per = 4\n        elif form == \"bytes\":\n")
+_REC_MATCH = ("        match form:\n            case kind if not kind or kind == \"int\":\n                frm, frmu, bytes_per = self._intstr, self._intstru, self._ibytes\n"
+              "            case \"uint\":\n                frm, frmu, bytes_per = self._intstr.replace(\"i\", \"u\"), @UINT@, self._ibytes\n"
+              "            case \"double\":\n                frm, frmu, bytes_per = self._endian + \"f8\", self._endian + \"%dd\", 8\n"
+              "            case \"single\":\n                frm, frmu, bytes_per = self._endian + \"f4\", self._endian + \"%df\", 4\n"
+              "            case _:\n                frm = None\n        if frm is not None:\n            pass\n        elif form == \"bytes\":\n")
+_DIR_LOADER = ("            if self._ascii:\n                loadfunc = self._loadop4_ascii\n            else:\n                loadfunc = self._loadop4_binary\n"
+               "            while 1:\n                name, X, form, mtype = loadfunc(listonly=True)\n")
+_DIR_TABLE = ("            loadfunc = {True: @A@, False: @B@}[bool(self._ascii)]\n"
+              "            while 1:\n                name, X, form, mtype = loadfunc(listonly=True)\n")
+_SKIP_DENSE_LINES = "                nlines = (elems + perline - 1) // perline\n                for _ in it.repeat(None, nlines):\n                    self._fileh.readline()\n"
+_SKIP_NB_LINES = ("                    elems -= L + 1\n                    L //= wper\n                    # read column as a long string\n"
+                  "                    nlines = (L + perline - 1) // perline\n")
+_SKIP_NB_DIVMOD = ("                    elems -= L + 1\n                    L //= wper\n                    # read column as a long string\n"
+                   "                    nlines, partial = divmod(L, perline)\n                    nlines += partial > @K@\n")
+_DENSE_ASCII_LOOP = ("        while c < cols:\n            elems = int(line[e_slice])\n            r -= 1\n            # read column as a long string\n"
+                     "            s = self._get_ascii_block(elems, perline, linelen)\n            put(X, r, c, s, elems, numlen)\n            line = self._fileh.readline()\n"
+                     "            c = int(line[c_slice]) - 1\n            r = int(line[r_slice])\n        return retrn(rows, cols, X)\n")
+_DENSE_ASCII_CARRIED = ("        elems = int(line[e_slice])\n        while c < cols:\n            r -= 1\n            # read column as a long string\n"
+                        "            s = self._get_ascii_block(elems, perline, linelen)\n            put(X, r, c, s, elems, numlen)\n            line = self._fileh.readline()\n"
+                        "            c, r, elems = (int(line[i : i + 8]) for i in range(@R@))\n            c -= 1\n        return retrn(rows, cols, X)\n")
+
+RECIPES += [
+    # ------------------------------------------------------------------ a comprehension that reads the file is the loop it abbreviates
+    ("C11", "neutral", [], OP4, _BLOCK, _BLOCK_COMP.replace("@N@", "nlines"), "_get_ascii_block: the lines of a block read by a comprehension of readline() calls"),
+    ("C11", "break", ["C11-R3", "C11-R4"], OP4, _BLOCK, _BLOCK_COMP.replace("@N@", "nlines - 1"), "_get_ascii_block (comprehension): one line too few per block"),
+    # ------------------------------------------------------------------ records iterated by a generator
+    ("C11", "neutral", [], OP2, _SKIPREC, _SKIPREC_GEN.replace("@SEEK@", "reclen + 4"), "skipop2record: the records come from a (local) generator"),
+    ("C11", "break", ["C11-R4"], OP2, _SKIPREC, _SKIPREC_GEN.replace("@SEEK@", "reclen"), "skipop2record (generator): end-of-record marker not skipped"),
+    # ------------------------------------------------------------------ loops steered by a flag
+    ("C11", "neutral", [], OP2, _SKIPREC, _SKIPREC_FLAG.replace("@SEEK@", "reclen + 4"), "skipop2record: `done` flag computed before the loop and at the end of its body"),
+    ("C11", "break", ["C11-R4"], OP2, _SKIPREC, _SKIPREC_FLAG.replace("@SEEK@", "reclen + 8"), "skipop2record (flag): skips 4 bytes too many per record"),
+    ("C11", "neutral", [], OP4, _SKIPBIN_ALL, _SKIPBIN_FLAG.replace("@OP@", "<="), "_skipop4_binary: `more` flag"),
+    ("C11", "break", ["C11-R4"], OP4, _SKIPBIN_ALL, _SKIPBIN_FLAG.replace("@OP@", "<"), "_skipop4_binary (flag): stops one record early - the sentinel column is not consumed"),
+    # ------------------------------------------------------------------ formats kept in a small value object
+    ("C11", "neutral", [], OP2, _MAT_FORMATS, _MAT_RECORD.replace("@NB@", "self._fbytes"), "rdop2matrix: the three formats of the reals in a SimpleNamespace"),
+    ("C11", "break", ["C11-R1"], OP2, _MAT_FORMATS, _MAT_RECORD.replace("@NB@", "4"), "rdop2matrix (SimpleNamespace): 4 bytes per single-precision value whatever the key width"),
+    # ------------------------------------------------------------------ match statement
+    ("C11", "neutral", [], OP2, _REC_CHAIN, _REC_MATCH.replace("@UINT@", "self._intstru.replace(\"i\", \"I\").replace(\"q\", \"Q\")"), "rdop2record: the `form` chain as a match statement"),
+    ("C11", "break", ["C11-R1"], OP2, _REC_CHAIN, _REC_MATCH.replace("@UINT@", "self._intstru"), "rdop2record (match): 'uint' decoded signed on the struct side"),
+    # ------------------------------------------------------------------ sizes taken from the structs
+    ("C11", "neutral", [], OP2, "        self._fileh.read(n * (8 + self._ibytes))\n", "        self._fileh.read(n * (8 + self._Str.size))\n", "_skipkey: the key size is the size of the key struct"),
+    ("C11", "break", ["C11-R4"], OP2, "        self._fileh.read(n * (8 + self._ibytes))\n", "        self._fileh.read(n * (8 + self._Str4.size))\n", "_skipkey: size of the 4-byte marker struct used for the key"),
+    # ------------------------------------------------------------------ loader picked from a table
+    ("C11", "neutral", [], OP4, _DIR_LOADER, _DIR_TABLE.replace("@A@", "self._loadop4_ascii").replace("@B@", "self._loadop4_binary"), "dir: loader picked from a two-entry table"),
+    ("C11", "break", ["C11-R5"], OP4, _DIR_LOADER, _DIR_TABLE.replace("@A@", "self._loadop4_binary").replace("@B@", "self._loadop4_ascii"), "dir (table): ascii and binary loaders swapped"),
+    # ------------------------------------------------------------------ other ways to count the lines of a block
+    ("C11", "neutral", [], OP4, _SKIP_DENSE_LINES, "                for _ in range(0, elems, perline):\n                    self._fileh.readline()\n", "_skipop4_ascii (dense): one line per `perline` values, range with a step"),
+    ("C11", "break", ["C11-R4"], OP4, _SKIP_DENSE_LINES, "                for _ in range(1, elems, perline):\n                    self._fileh.readline()\n", "_skipop4_ascii (dense, range with a step): a line short when elems % perline == 1"),
+    ("C11", "neutral", [], OP4, _SKIP_NB_LINES, _SKIP_NB_DIVMOD.replace("@K@", "0"), "_skipop4_ascii (nonbigmat): divmod and `+= partial > 0`"),
+    ("C11", "break", ["C11-R3", "C11-R4"], OP4, _SKIP_NB_LINES, _SKIP_NB_DIVMOD.replace("@K@", "1"), "_skipop4_ascii (nonbigmat, divmod): a block that ends with one value loses its last line"),
+    # ------------------------------------------------------------------ a header value carried through the loop instead of re-read at its top
+    ("C11", "neutral", [], OP4, _DENSE_ASCII_LOOP, _DENSE_ASCII_CARRIED.replace("@R@", "0, 24, 8"), "_rd_dense_ascii: the column header parsed at once, `elems` carried"),
+    ("C11", "break", ["C11-R3", "C11-R4"], OP4, _DENSE_ASCII_LOOP, _DENSE_ASCII_CARRIED.replace("@R@", "0, 32, 8").replace("c, r, elems =", "c, elems, r, _x ="),
+     "_rd_dense_ascii (header parsed at once): row and word count swapped"),
+]
